@@ -123,6 +123,9 @@ def enumerate_cases(tier: str):
             yield {"kind": kind, "fault": fault, "file": initial, "k": k, "T": None, "mutate": True}
             if fault == "none":
                 yield {"kind": kind, "fault": fault, "file": initial, "k": k, "T": None, "mutate": True, "reenter": True}
+                if k in (0, 9):
+                    yield {"kind": kind, "fault": fault, "file": initial, "k": k, "T": None, "mutate": True, "reenter": True, "between_edit": True}
+                    yield {"kind": kind, "fault": fault, "file": initial, "k": k, "T": 901, "mutate": "in-place", "reenter": True, "between_edit": True}
                 yield {"kind": kind, "fault": fault, "file": initial, "k": k, "T": None, "mutate": True, "prefill": True}
         for T in (1, 899, 900, 901, 1800, 5000):
             for k in (0, 1, 2, 3, 5):
@@ -158,6 +161,7 @@ def strategy(tier: str):
             "enter_task": st.sampled_from((False, False, True)),
             "exit_task": st.sampled_from((False, False, True)),
             "late_change": st.sampled_from((False, False, True)),
+            "between_edit": st.sampled_from((False, False, True)),
         }
     ).filter(lambda c: not (c["kind"] == "mqtt" and c["fault"] == "connect-once")).filter(lambda c: c["kind"] == "plain" or (c["kind"] == "plain-nosuspend" and c["fault"] not in ("connect-timeout", "disconnect-hang")) or ("disconnect" not in c["fault"] and c["fault"] != "connect-timeout"))
 
@@ -322,6 +326,16 @@ def run_case(case: dict) -> Outcome:
             return "unreadable", repr(err)
         return "ok", doc
 
+    async def disk_when_quiet(gateway: Gateway) -> tuple[str, object]:
+        """The file, read again over a few loop iterations (no virtual time passes) if a scheduled save is rewriting it at this very moment."""
+        state, doc = disk()
+        for _ in range(40):
+            if state == "ok" and doc == registry_doc(gateway):
+                break
+            await asyncio.sleep(0)
+            state, doc = disk()
+        return state, doc
+
     def registry_doc(gateway: Gateway) -> dict:
         return json.loads(json.dumps(env.snapshot(gateway.nodes)))
 
@@ -342,7 +356,7 @@ def run_case(case: dict) -> Outcome:
                     return fail("new-loop:no-save-after-entering", f"{where}: one virtual second after entry the file is {state} {str(doc)[:120]!r}")
                 gateway.nodes[12] = Node(12, 17, "2.2")
                 await asyncio.sleep(901.5)
-                state, doc = disk()
+                state, doc = await disk_when_quiet(gateway)
                 if state != "ok" or doc != registry_doc(gateway):
                     return fail("new-loop:periodic-save-missing", f"{where}: 15 minutes after a change the file is {state} {str(doc)[:160]!r}")
                 gateway.nodes[13] = Node(13, 17, "2.2")
@@ -485,7 +499,7 @@ def run_case(case: dict) -> Outcome:
                     await asyncio.sleep(T)
                     if loop.time() - changed_at >= 901 - 1e-9:
                         info["boundary"] = True
-                        state, doc = disk()
+                        state, doc = await disk_when_quiet(gateway)
                         if state != "ok" or doc != registry_doc(gateway):
                             return fail("periodic:change-not-on-disk-after-15-min", f"{loop.time() - changed_at:.0f} s after the change the file is {state} {str(doc)[:160]!r}")
                 for step in range(k):
@@ -580,8 +594,22 @@ def run_case(case: dict) -> Outcome:
         if case.get("reenter") and fault == "none":
             # the same gateway object is used for a second session (reconnect after the link dropped)
             caught2: BaseException | None = None
+            on_disk = None
+            if case.get("between_edit") and gateway.nodes:
+                # while disconnected the application drops a node from its registry and edits another (the file is not touched):
+                # entering again loads the file, so what the file holds is back
+                _state, on_disk = disk()
+                ids = sorted(gateway.nodes)
+                del gateway.nodes[ids[0]]
+                if len(ids) > 1:
+                    gateway.nodes[ids[-1]].battery_level = 99
+                    gateway.nodes[ids[-1]].sketch_name = "edited while disconnected"
             try:
                 async with gateway:
+                    if on_disk is not None:
+                        now = registry_doc(gateway)
+                        if {k: v for k, v in now.items() if k in on_disk} != on_disk:
+                            return fail("reenter:file-not-loaded", f"{where}: the registry was changed while disconnected; after entering again it holds {str(now)[:200]!r}, the file holds {str(on_disk)[:200]!r}")
                     if T is not None:
                         await asyncio.sleep(1)
                         state, doc = disk()
@@ -592,7 +620,7 @@ def run_case(case: dict) -> Outcome:
                         node.battery_level = 13
                     if T is not None:
                         await asyncio.sleep(max(T, 901))
-                        state, doc = disk()
+                        state, doc = await disk_when_quiet(gateway)
                         if state != "ok" or doc != registry_doc(gateway):
                             return fail("reenter:periodic-save-missing", f"{where}: 15 minutes into the second session the change is not on disk: {state} {str(doc)[:160]!r}")
                     for _ in range(k):
